@@ -268,6 +268,21 @@ class C12(object):
         if not r.oracle_fail:
             r.oracle_fail = self.judge(lin, (('single', impl_single, us), ('size', impl_many, us),
                                              ('size>=130', impl_big, big)))
+        # the single-draw scan of dit.math.sampling (`_sample`, the pure-Python `_sample_discrete__python` here): same
+        # selection rule as the batch scan, compared index by index with the model on the same numbers
+        if not r.oracle_fail:
+            import dit.math.sampling as smp
+            arr = np.array(lin, dtype=float)
+            for u, want in zip(us, scanf):
+                got = smp._sample(arr, float(u))
+                if got != want:
+                    if got is None or not (0 <= int(got) < len(lin)) or lin[int(got)] <= 0:
+                        r.oracle_fail = ('dit.math.sampling._sample(pmf, %r) returned %r: not a stored outcome of positive '
+                                         'probability (pmf %s)' % (u, got, lin))
+                    else:
+                        r.mismatch = 'single-draw scan: _sample(pmf, %r) = %r, model %r (pmf %s)' % (u, got, want, lin)
+                    break
+            r.features.append('single-draw-scan')
         # exponentiation of log pmfs: the linear pmf used must be the specified one
         if not r.oracle_fail:
             for a, b in zip(lin, pmf_in):
